@@ -1,6 +1,8 @@
 import RimeModel.Session.WellFormed
 import RimeModel.Session.ComposeOK
 import RimeModel.Session.PunctComposeOK
+import RimeModel.Session.RecogComposeOK
+import RimeModel.Session.RecogPattern
 import RimeModel.Session.Shape
 import RimeModel.Session.Utf8
 /-!
@@ -119,6 +121,45 @@ example :
     c1.input = [97, 49] ∧ c1.getOption "ascii_mode" = true ∧ c1.acInline = true ∧
     c2.commitBuf = [65, 49] ∧ c2.isComposing = false ∧ c2.getOption "ascii_mode" = false ∧ c2.acInline = false ∧
     c3.input = [97] ∧ c3.getOption "ascii_mode" = false ∧ (c3.comp.segs.map (·.status)) = [.confirmed, .void] := by
+  decide
+
+/-- **C02 for schemas with the recognizer family.**  `recognizer` is a processor of the model (`Proc.recognizer`:
+RecognizerPatterns::GetMatch on the input plus the incoming character against the current segmentation, PushInput and
+kAccepted on a match) and `matcher`, `affix_segmentor@…` (prefix / suffix / tips / closing tips / extra tags; the prefix and
+suffix segments it splits off are born `kGuess` with a prompt and never carry a menu), `ascii_segmentor` (reads
+`ascii_mode` in the middle of a recomposition) are segmentors of the recomposition `composeR`, in any order and number
+beside abc / punct / fallback.  The regular expressions are NOT modelled: a pattern is an arbitrary search function
+(`RecPattern.search`), so the statement covers every regular expression Boost could be given.  For every such schema —
+any patterns, affix configurations, segmentor order, punctuation mapping, translation oracle and filter, with or without
+ascii composer and key binder — and every timed API history from a fresh session, the view is well-formed. -/
+theorem wellformed_reachable_recognizer (envOf : Bool → Env) (hps : ∀ b, 0 < (envOf b).pageSize) (cfg : Bool → RSegCfg)
+    (henv : ∀ b, (envOf b).recompose = composeR (cfg b)) (c0 : Ctx) (h0 : Fresh c0) (ops : List (Nat × Op)) (b : Bool) :
+    (view (envOf b) (runOpsT envOf c0 ops)).WellFormed :=
+  wellformed_reachable_timed envOf hps (fun b => by rw [henv b]; exact composeR_spec (cfg b)) c0 h0 ops b
+
+/-- non-vacuity: luna_pinyin's reverse-lookup set-up.  Pattern "`[a-c]*'?$" (tag `rev`), an affix segmentor on that tag with
+prefix "`", suffix "'" and tips.  The keys "`", `a`, `'` all go through the recognizer (the speller never sees them); the
+composition becomes prefix [0,1) / code [1,2) / suffix [2,3): the outer two are `phony` guesses without a menu carrying the
+prompt, the code segment is translated by the `rev` translator, and the commit preview is the candidate alone.  With
+`ascii_mode` switched on the same input is one raw segment (ascii_segmentor). -/
+example :
+    let rev : Pattern := { anchoredStart := false, anchoredEnd := true,
+                           items := [⟨[(96, 96)], .one⟩, ⟨[(97, 99)], .star⟩, ⟨[(39, 39)], .opt⟩] }
+    let pats : List RecPattern := [⟨"rev", rev.search⟩]
+    let a : AffixCfg := { tag := "rev", prefix_ := [96], suffix := [39], tips := [84], closingTips := [90] }
+    let cfg : RSegCfg := { alphabet := [97, 98, 99], initials := [97, 98, 99], finals := [], delimiters := [39],
+                           translate := fun _ g => if g.tags.has "rev" then [Cand.mk [65] [] [] g.start g.stop true] else [],
+                           patterns := pats, segmentors := [.ascii, .matcher, .abc, .affix a, .fallback] }
+    let env : Env := { pageSize := 5, alphabet := [97, 98, 99], initials := [97, 98, 99], delimiters := [39],
+                       processors := [.recognizer, .speller, .selector, .expressEditor], recPatterns := pats,
+                       recompose := composeR cfg }
+    let c := runOpsT (fun _ => env) {} [(0, .key 96 0), (0, .key 97 0), (0, .key 39 0)]
+    let c2 := runOpsT (fun _ => env) c [(0, .setOption "ascii_mode" true)]
+    c.input = [96, 97, 39] ∧
+    c.comp.segs.map (fun g => (g.start, g.stop, g.status, g.tags.phony, g.menu.isSome)) =
+      [(0, 1, .guess, true, false), (1, 2, .guess, false, true), (2, 3, .guess, true, false)] ∧
+    (view env c).preview = [65] ∧ c.comp.prompt = [90] ∧
+    c2.comp.segs.map (fun g => (g.start, g.stop, g.tags.raw)) = [(0, 3, true)] := by
   decide
 
 /-- **why the re-entrant ProcessKey needs no fuel.**  `KeyBinder::redirecting_` is set exactly around the loop of
